@@ -6,6 +6,7 @@ import CanVerif.Model.DbcStmt
 import CanVerif.Model.DbcAttr
 import CanVerif.Model.DbcComment
 import CanVerif.Model.DbcTables
+import CanVerif.Model.DbcFile
 open Lean CanVerif CanVerif.Dbc
 
 namespace D05
@@ -79,6 +80,35 @@ partial def normDec (d : Dec) : Dec :=
   else if d.coeff % 10 == 0 then normDec ⟨d.neg, d.coeff / 10, d.exp + 1⟩ else d
 
 def optDec (j : Json) : Except String (Option Dec) := if J.isNull j then pure none else some <$> decOf j
+
+/-! the matrix under construction (Model/DbcFile.lean) as JSON -/
+def strJ (s : Str) : Json := .str (String.ofList s)
+def optStrJ : Option Str → Json
+  | none => .null
+  | some [] => .null          -- (an empty comment and no comment are the same observation)
+  | some s => strJ s
+def pairsJ (l : List (Str × Str)) : Json := J.ofList (l.map fun (k, v) => J.ofList [strJ k, strJ v])
+def keyJ (k : Str) : Json := match parseInt (stripWs k) with
+  | some n => J.ofInt n
+  | none => strJ k
+def rsigJ (s : RSig) : Json :=
+  J.obj [("sg", sgJ s.sg), ("comment", optStrJ s.comment), ("attrs", pairsJ s.attrs),
+         ("values", J.ofList (s.values.map fun (k, t) => J.ofList [J.ofInt k, strJ t])), ("float", .bool s.isFloat),
+         ("muxer", optStrJ s.muxer), ("ranges", J.ofList (s.ranges.map fun (a, b) => J.ofList [J.ofNat a, J.ofNat b]))]
+def rframeJ (f : RFrame) : Json :=
+  J.obj [("id", J.ofNat f.key.1), ("ext", .bool f.key.2), ("name", strJ f.name), ("size", J.ofNat f.size),
+         ("tx", J.ofStrList (f.transmitters.map String.ofList)), ("comment", optStrJ f.comment), ("attrs", pairsJ f.attrs),
+         ("groups", J.ofList (f.groups.map fun g => J.obj [("name", strJ g.name), ("id", J.ofNat g.id), ("members", J.ofStrList (g.members.map String.ofList))])),
+         ("complex", .bool f.complexMux), ("sigs", J.ofList (f.sigs.map rsigJ))]
+def rmatrixJ (m : RMatrix) : Json :=
+  let lv (l : Level) : Json := J.ofList ((m.defs.filter (·.level == l)).map fun d =>
+    J.obj [("name", strJ d.name), ("definition", strJ d.definition), ("default", match d.default with | none => Json.null | some v => strJ v)])
+  J.obj [("ecus", J.ofList (m.ecus.map fun e => J.obj [("name", strJ e.name), ("comment", optStrJ e.comment), ("attrs", pairsJ e.attrs)])),
+         ("frames", J.ofList (m.frames.map rframeJ)),
+         ("defs", J.obj [("signal", lv .signal), ("frame", lv .frame), ("ecu", lv .ecu), ("global", lv .global)]),
+         ("attrs", pairsJ m.attrs),
+         ("tables", J.ofList (m.tables.map fun t => J.obj [("name", strJ t.name), ("entries", J.ofList (t.entries.map fun (k, v) => J.ofList [keyJ k, strJ v]))])),
+         ("errors", J.ofNat m.errors)]
 
 /-- ops:
 "start": c = {"size","signed","factor","offset","min","max","initial","dflt"}; i = {"attr": raw number written | null, "initial": what comes back}
@@ -252,6 +282,11 @@ def handle (op : String) (c i : Json) : Except String (Json × String) := do
                     ("read", J.ofList ((readFrames (lines.map String.toList)).map blockJ))]
     let rd ← (← J.arr (← J.key i "read")).mapM blockOf
     pure (m, if SpecRT.blocksSame rd bs then "ok" else "fail: frames or signals of the frame section read back differently")
+  | "whole" =>
+    -- i = {"lines": the lines of a file, "snap": the matrix the real reader has built when its line loop ends (before the post-processing)}
+    if !J.isNull (J.keyD i "skipped" Json.null) then return (J.obj [], "ok")
+    let lines ← J.strList (← J.key i "lines")
+    pure (J.obj [("snap", rmatrixJ (readFile (lines.map String.toList)))], "ok")
   | "start" =>
     let g : StartSig := { s := { size := ← J.nat (← J.key c "size"), signed := ← J.bool (← J.key c "signed"), factor := ← decOf (← J.key c "factor"),
                                  offset := ← decOf (← J.key c "offset") },
